@@ -28,7 +28,7 @@ PROP_MODULES = ["OV.Props.C05"]
 
 QUICK_N = {"clipclip": 170, "cliprelu": 70, "reluclip": 90, "relurelu": 6, "minmax": 220, "unit": 220, "dropout": 30, "cast": 110,
            "perm": 120, "axes": 100, "reshape": 260, "slice": 150, "scatter": 90, "gemm": 140, "pad": 170, "normpad": 110,
-           "bias": 50, "bn": 110, "expandbin": 200, "misc": 20, "matmul": 200, "hardswish": 120, "convaffine": 70,
+           "bias": 50, "bn": 110, "expandbin": 240, "misc": 30, "matmul": 200, "hardswish": 120, "convaffine": 70,
            "dynscatter": 60, "slicesplit": 90, "ccos": 40, "norm": 110}
 
 
@@ -38,7 +38,7 @@ REQUIRED_BRANCHES = [
     "clipclip/-/fire", "clipclip/-/nofire", "clipclip/-/raise", "cliprelu/-/fire", "cliprelu/-/nofire", "reluclip/-/fire", "reluclip/-/nofire",
     "relurelu/-/fire",
     "minmax/minMin/fire", "minmax/maxMax/fire", "minmax/maxMin/fire", "minmax/minMax/fire", "minmax/minMax/nofire", "minmax/maxMin/nofire",
-    "unit/-/fire", "unit/-/nofire", "dropout/-/fire", "dropout/-/nofire", "misc/rotary1/fire", "misc/rotary2/fire", "misc/gqa/fire",
+    "unit/-/fire", "unit/-/nofire", "dropout/-/fire", "dropout/-/nofire", "misc/rotary1/fire", "misc/rotary2/fire", "misc/gqa/fire", "misc/rotaryP/fire", "misc/rotaryPmis/nofire",
     "cast/noop/fire", "cast/noop/nofire", "cast/castcast/fire", "cast/castcast/nofire",
     "perm/noop/fire", "perm/noop/nofire", "perm/tt/fire", "axes/unsq/fire", "axes/unsq/nofire", "axes/sq/fire", "axes/sq/nofire",
     "reshape/flatten/fire", "reshape/flatten/nofire", "reshape/rr/fire", "reshape/rr/nofire", "reshape/expand/fire", "reshape/expand/nofire",
